@@ -186,7 +186,7 @@ def cases_and_validate(chk, flavour, exe_name, cases_path, name, module="TraceAl
     lines = [l for l in open(cases_path) if l.startswith('"{') or l.startswith("{")]
     if not lines:
         raise vlib.FrameworkError("no cases emitted for " + name)
-    shards = shards or min(vlib.NCPU, max(1, len(lines) // 200))
+    shards = shards or min(vlib.NCPU, max(1, len(lines) // 8))
     per = (len(lines) + shards - 1) // shards
     paths = []
     k = 0
